@@ -192,4 +192,16 @@ FINDINGS = [
               'alone gives (None, None) (ber.py Choice.decode only knows the tags of the known inner alternatives)',
          witness=dict(kind='decode_expect', spec='M DEFINITIONS EXPLICIT TAGS ::= BEGIN A ::= CHOICE { a BOOLEAN, c CHOICE { x [0] INTEGER, ... } }' + END,
                       codec='ber', type='A', data_hex='a1020500', expected=T(['c', T([None, None])]))),
+    dict(key='xer-list-of-alias-of-recursive-type-recursion-error', props=['C19', 'C01', 'C02'],
+         text='XER: a SEQUENCE OF / SET OF whose element type is a type assignment that is only a reference (T5 ::= T4, T4 ::= T1) leading back to '
+              'the enclosing type: T1 ::= SEQUENCE { id SET OF T5 OPTIONAL, k BOOLEAN }  T4 ::= T1  T5 ::= T4  value {k TRUE, id {{k FALSE}}} raises '
+              'RecursionError in encode (the placeholder of the recursive element resolves to itself); with T4 and T5 written before T1 the same value '
+              'encodes, so the outcome depends on the order of the assignments',
+         witness=dict(kind='roundtrip', spec=HDR + 'T1 ::= SEQUENCE { id SET OF T5 OPTIONAL, k BOOLEAN } T4 ::= T1 T5 ::= T4' + END, codec='xer',
+                      type='T1', value={'k': True, 'id': [{'k': False}]})),
+    dict(key='ber-choice-alternatives-of-one-recursive-type', props=['C19'],
+         text='BER/DER: CHOICE { b INTEGER, y7 T0, item [2] IMPLICIT T0 } where T0 ::= [6] IMPLICIT SEQUENCE is recursive through T6 ::= [5] T1 and '
+              'T3 ::= T0 is a further reference to it (IMPLICIT TAGS): the same octets decode to (y7, ...) or (item, ...) at the inner level depending on '
+              'the order of the four assignments (T0 T1 T3 T6 vs T1 T3 T6 T0); witness texts and value in findings/data/ber-choice-alternatives-of-one-recursive-type.json',
+         witness=dict(kind='custom', name='ber_choice_alternatives_of_one_recursive_type')),
 ]
